@@ -20,8 +20,10 @@ VARIABLES nx, ny, nz,      \* dimensions
           tops,            \* depth of the top of layer 1 (integer)
           shift,           \* per column (i + nx*(j-1)) vertical fault shift (integer)
           actnum,          \* activity mask over global cells 1..nx*ny*nz
+          wp,              \* corner-point wedges: thickness weight of the pillar rows i = 1..nx+1 in halves (2 = the plain
+                           \* layer thickness dz, 0 = the layers pinch out on that pillar row); all 2 for the other input forms
           exists
-gvars == <<nx, ny, nz, dx, dy, dz, tops, shift, actnum, exists>>
+gvars == <<nx, ny, nz, dx, dy, dz, tops, shift, actnum, wp, exists>>
 
 NC == nx * ny * nz
 \* global cell number (1-based) and back
@@ -39,18 +41,21 @@ NumActive == Len(ActiveSeq)
 GlobalOfActive == [a \in 1..NumActive |-> ActiveSeq[a] - 1]
 ActiveOfGlobal == [g \in 1..NC |-> IF actnum[g] = 0 THEN -1
                                    ELSE Cardinality({h \in 1..g : actnum[h] # 0}) - 1]
-Volume(g) == dx[Iof(g)] * dy[Jof(g)] * dz[Kof(g)]
-\* twice the depth of the cell centre
-Depth2(g) == 2 * (tops + shift[Col(g)] + SumTo(dz, Kof(g) - 1)) + dz[Kof(g)]
-Dims(g) == <<dx[Iof(g)], dy[Jof(g)], dz[Kof(g)]>>
+\* a cell between pillar rows i and i+1 has planar faces; its mean thickness is dz * W / 4
+W(g) == wp[Iof(g)] + wp[Iof(g) + 1]
+\* four times the volume, eight times the depth of the cell centre, four times the extents
+Volume4(g) == dx[Iof(g)] * dy[Jof(g)] * dz[Kof(g)] * W(g)
+Depth8(g) == 8 * (tops + shift[Col(g)]) + (2 * SumTo(dz, Kof(g) - 1) + dz[Kof(g)]) * W(g)
+Dims4(g) == <<4 * dx[Iof(g)], 4 * dy[Jof(g)], dz[Kof(g)] * W(g)>>
+Plain == \A i \in DOMAIN wp : wp[i] = 2
 
 GInit == /\ exists = FALSE /\ nx = 0 /\ ny = 0 /\ nz = 0 /\ dx = <<>> /\ dy = <<>> /\ dz = <<>>
-         /\ tops = 0 /\ shift = <<>> /\ actnum = <<>>
-Create(a, b, c, x, y, z, t, sh, act) ==
+         /\ tops = 0 /\ shift = <<>> /\ actnum = <<>> /\ wp = <<>>
+Create(a, b, c, x, y, z, t, sh, act, w) ==
     /\ nx' = a /\ ny' = b /\ nz' = c /\ dx' = x /\ dy' = y /\ dz' = z /\ tops' = t /\ shift' = sh
-    /\ actnum' = act /\ exists' = TRUE
-ResetActnum(act) == exists /\ actnum' = act /\ UNCHANGED <<nx, ny, nz, dx, dy, dz, tops, shift, exists>>
-ResetAllActive == exists /\ actnum' = [g \in 1..NC |-> 1] /\ UNCHANGED <<nx, ny, nz, dx, dy, dz, tops, shift, exists>>
+    /\ actnum' = act /\ wp' = w /\ exists' = TRUE
+ResetActnum(act) == exists /\ actnum' = act /\ UNCHANGED <<nx, ny, nz, dx, dy, dz, tops, shift, wp, exists>>
+ResetAllActive == exists /\ actnum' = [g \in 1..NC |-> 1] /\ UNCHANGED <<nx, ny, nz, dx, dy, dz, tops, shift, wp, exists>>
 \* saving and loading an EGRID file, copying the grid: the abstract grid is unchanged
 SaveLoad == exists /\ UNCHANGED gvars
 
@@ -60,8 +65,8 @@ IndexBijection == exists =>
     /\ \A g \in 1..NC : (actnum[g] # 0) => GlobalOfActive[ActiveOfGlobal[g] + 1] = g - 1
     /\ \A g \in 1..NC : G(Iof(g), Jof(g), Kof(g)) = g
     /\ NumActive = Cardinality({g \in 1..NC : actnum[g] # 0})
-PositiveVolumes == exists => \A g \in 1..NC : Volume(g) > 0
+PositiveVolumes == exists => \A g \in 1..NC : Volume4(g) > 0
 \* additivity under subdivision: the volumes of the cells of a column segment add up
 Additive == exists => \A i \in 1..nx, j \in 1..ny :
-               SumTo([k \in 1..nz |-> Volume(G(i, j, k))], nz) = dx[i] * dy[j] * SumTo(dz, nz)
+               SumTo([k \in 1..nz |-> Volume4(G(i, j, k))], nz) = dx[i] * dy[j] * SumTo(dz, nz) * (wp[i] + wp[i + 1])
 =============================================================================
